@@ -571,6 +571,38 @@ def r8_placeholder_never_data(ctx):
                 'dict', where(f))
 
 
+def r9_frames_are_ascii(ctx):
+    """what a client sent is relayed to other clients inside frames the
+    server encodes: the JSON text is produced with ensure_ascii left on, so a
+    string the decoder accepted (lone surrogate escapes included) is escaped
+    again and every frame is transmittable text; with ensure_ascii=False one
+    client's payload makes the shared frame of all recipients unencodable."""
+    m = ctx.model
+    f = m.own_method('Packet', 'encode')
+    n = 0
+    from ..sym import with_new_helpers
+    for g in with_new_helpers(m, f):
+        for c in walk_own(g.node):
+            if isinstance(c, ast.Call) and isinstance(c.func, ast.Attribute) \
+                    and c.func.attr == 'dumps':
+                n += 1
+                kw = {k.arg: k.value for k in c.keywords}
+                ea = kw.get('ensure_ascii')
+                ctx.check(ea is None or is_const(ea, True),
+                          'Packet.' + g.name, 'JSON text is produced with '
+                          'ensure_ascii on', key='ensure-ascii',
+                          reason='dumps(..., ensure_ascii=%s): characters '
+                          'the transport cannot encode (a lone surrogate '
+                          'sent by one client and relayed by a handler) are '
+                          'copied raw into the frame queued for every '
+                          'recipient' % txt(ea), where=where(g, c))
+                ctx.check(None not in kw, 'Packet.' + g.name, 'no opaque '
+                          '**options reach dumps', key='dumps-kwargs',
+                          where=where(g, c))
+    if not n:
+        raise AnalysisError('Packet.encode: no dumps call found')
+
+
 def r6_answers(ctx, fam):
     m = ctx.model
     S = SERVER[fam]
@@ -625,6 +657,9 @@ def run(ctx):
              'must be refused) (shared rule)', floor=5)
     from .c04 import r6_manager
     r6_manager(ctx)
+    ctx.rule('C12.R9', 'frames are ASCII JSON: relayed strings are escaped '
+             'again', floor=2)
+    r9_frames_are_ascii(ctx)
     ctx.rule('C12.R8', 'a placeholder dict never survives reconstruction as '
              'application data', floor=1)
     r8_placeholder_never_data(ctx)
